@@ -88,6 +88,16 @@ def run_one(sh, case, driver='generated'):
         delays[poollog.sig_key(units[int(u)])] = 0.03 * rank
     res = None
     api = case.get('api', 'func')
+    layout = case.get('layout', 'C')
+
+    def as_layout(a):
+        # same values, another memory layout (Fortran order / non-contiguous view)
+        if layout == 'F':
+            return np.asfortranarray(a)
+        if layout == 'T':
+            return np.ascontiguousarray(np.moveaxis(a, 0, 1)).swapaxes(0, 1)
+        return np.array(a, copy=True)
+    sh.note('layout=' + layout)
     import sys
     fake = os.path.join(os.path.dirname(os.path.dirname(os.path.abspath(__file__))), 'fake_tqdm')
     use_fake = bool(case.get('fake_tqdm')) and case.get('progress') is not None
@@ -99,15 +109,27 @@ def run_one(sh, case, driver='generated'):
         try:
             with quiet():
                 if api == 'func':
-                    res = compute_features_3d(np.array(sigs, copy=True), fs, fr, compute_features_kwargs=copy.deepcopy(kw),
+                    res = compute_features_3d(as_layout(sigs), fs, fr, compute_features_kwargs=copy.deepcopy(kw),
                                               axis=axis, return_samples=rs, n_jobs=case['n_jobs'], progress=case.get('progress'))
                 else:
                     o = copy.deepcopy(kw) or {}
                     bg = BycycleGroup(center_extrema=o.get('center_extrema', 'peak'), burst_method=o.get('burst_method', 'cycles'),
                                       burst_kwargs=o.get('burst_kwargs'), thresholds=o.get('threshold_kwargs'),
                                       find_extrema_kwargs=o.get('find_extrema_kwargs'), return_samples=rs)
-                    bg.fit(np.array(sigs, copy=True), fs, fr, axis=axis, n_jobs=case['n_jobs'], progress=case.get('progress'))
+                    if case.get('refit_from') is not None:
+                        # the same group object was fitted before on an array of another shape (history on the object)
+                        try:
+                            prev = np.asarray(case['refit_from'])
+                            bg.fit(np.array(prev, copy=True), fs, fr, axis=axis if prev.ndim == 3 else 0, n_jobs=1)
+                            sh.note('group_object_refitted:%s->%s' % (list(prev.shape[:-1]), [n0, n1]))
+                        except Exception:
+                            sh.note('group_object_first_fit_raised')
+                    bg.fit(as_layout(sigs), fs, fr, axis=axis, n_jobs=case['n_jobs'], progress=case.get('progress'))
                     res = bg.df_features
+                    if len(bg.models) != n0 or any(len(r) != n1 for r in bg.models):
+                        vs.append({'mechanism': 'models-shape', 'message': 'models has shape %s for an array (%d, %d)'
+                                                                          % ([len(r) if isinstance(r, list) else 1 for r in bg.models], n0, n1)})
+                        raise StopIteration
                     for i in range(n0):
                         for j in range(n1):
                             m = bg.models[i][j]
@@ -115,6 +137,8 @@ def run_one(sh, case, driver='generated'):
                                 vs.append({'mechanism': 'models-do-not-mirror-df_features', 'message': 'models[%d][%d]' % (i, j)})
                             if not np.array_equal(m.sig, sigs[i, j]):
                                 vs.append({'mechanism': 'models-do-not-mirror-sigs', 'message': 'models[%d][%d].sig' % (i, j)})
+        except StopIteration:
+            pass
         except ValueError as e:
             if ambiguous and 'compute_features_kwargs' in str(e):
                 sh.note('ambiguous_cell_rejected')
@@ -207,7 +231,7 @@ def make_case(rng, shape=None, axis=None, kind=None):
     api = 'func'
     if kind == 'dict':
         kw = opts_for(rng, lo) if axis == (0, 1) else epoch_opts(rng, lo)
-        if rng.random() < 0.25:
+        if rng.random() < 0.4:
             api = 'obj'
     elif kind == 'none':
         kw = None
@@ -219,7 +243,13 @@ def make_case(rng, shape=None, axis=None, kind=None):
         else:
             c = str(rng.choice(['peak', 'trough']))
             kw = [[dict(epoch_opts(rng, lo), center_extrema=c) for _ in range(n1)] for _ in range(n0)]
-    return dict(sigs=sigs, fs=fs, f_range=(lo, hi), kwargs=kw, kw_kind=kind, axis=axis,
+    refit_from = None
+    if api == 'obj' and rng.random() < 0.6:
+        m1 = int(rng.choice([m for m in (1, 2, 3, 4) if m != n1]))
+        prev = gen_rows(rng, n0 * m1, nsamp, fs, lo, hi).reshape(n0, m1, nsamp)
+        refit_from = prev if rng.random() < 0.8 else prev[:, 0, :]
+    return dict(sigs=sigs, fs=fs, f_range=(lo, hi), kwargs=kw, kw_kind=kind, axis=axis, refit_from=refit_from,
+                layout=['C', 'C', 'F', 'T'][int(rng.integers(0, 4))],
                 return_samples=bool(rng.random() < 0.7), n_jobs=int(rng.choice([1, 2, -1])), api=api,
                 delay_seed=int(rng.integers(0, 1 << 30)),
                 progress=[None, None, 'tqdm', 'tqdm.notebook'][int(rng.integers(0, 4))], fake_tqdm=bool(rng.random() < 0.5))
